@@ -17,8 +17,7 @@ Import ListNotations.
 Open Scope Z_scope.
 
 Definition refuses (l : list Z) (r : Z) : bool := existsb (Z.eqb r) l.
-(* an exception of the message layer itself (the TypeError of pipe.py is raised later, in Pipe._add_event) *)
-Definition crashed (o : list output) : bool := existsb (fun x => match x with Crash TypeError => false | Crash _ => true | _ => false end) o.
+Definition crashed (o : list output) : bool := existsb (fun x => match x with Crash _ => true | _ => false end) o.
 
 (* messagemanager.py _send_via_transport -> message_interface.send(message).  A refusal IS dispatch_error(remote),
    run re-entrantly.  Ghost: a message whose FIRST transmission is refused is recorded as [Dropped] (it leaves the
